@@ -135,4 +135,20 @@ CHECKS = {
                   "quick": {"count": 200, "budget": 75, "workers": 8},
                   "thorough": {"count": 100000, "budget": 900, "workers": 16}}],
     },
+    "C13": {
+        "level": "exploration",
+        "rule": ("one evaluation = one generated grid ((1..6)^3, or 4..8 x 4..8 x 2..4 for 16-thread teams; tensor spacing, random ACTNUM, optionally "
+                 "sheared pillars and vertical faults with planar faces, 4 unit systems): index maps against ACTNUM; exact volumes |det| dx dy dz; "
+                 "DX/DY/DZ/TOPS vs DXV/DYV/DZV vs COORD/ZCORN; additivity under splitting every cell; activeVolume() under the simulated thread "
+                 "team for 3 (thorough: all 6) of T in {1,2,3,4,7,16} with a seeded release sequence, bit-compared with the uncached per-cell "
+                 "volumes; EGRID save (formatted/unformatted, NNCs, MAPAXES) decoded by the independent codec and reloaded by EclipseGrid and "
+                 "EGrid. distinct = hash of (dims, units, shear/fault/format flags, release-sequence hashes of the teams); non-trivial = >= 2 cells"),
+        "assumptions": ["yield points are function entries of EclipseGrid.cpp and calculateCellVol.cpp (compiled with -finstrument-functions); code inlined into the loop body has none",
+                        "EGRID tolerances are derived: stored coordinates must be the float image of the coordinate in file units; derived quantities get a bound of a few float ulps of the largest coordinate relative to the smallest cell extent",
+                        "a GOMP entry the shim does not implement ends the check with exit 2 (unsupported), not with a violation"],
+        "bins": [{"name": "c13", "srcs": ["scen/c13_grid.cpp", "simcore/threadsim.cpp"], "instrumented": True,
+                  "extra": ["build/san/hobj/inst_EclipseGrid.o", "build/san/hobj/inst_calculateCellVol.o"],
+                  "quick": {"count": 1200, "budget": 70, "workers": 8},
+                  "thorough": {"count": 400000, "budget": 900, "workers": 16}}],
+    },
 }
